@@ -403,7 +403,9 @@ def run_property(prop, tier, seed, replay=None):
     for pi, part in enumerate(parts):
         nshards = part.shards or NPROC
         if part.cases is None and part.n is not None:
-            nshards = max(1, min(nshards, part.n))
+            # Hypothesis starts every run with its simplest examples: keep
+            # at least 20 examples per shard so that shards are not trivial
+            nshards = max(1, min(nshards, part.n // 20 or 1))
         for sh in range(nshards):
             tasks.append((prop, tier, seed, pi, sh, nshards, known))
     ctxm = mp.get_context("fork")
